@@ -612,6 +612,28 @@ func (x *Exec) callBuiltin(fr *frame, site ssa.Instruction, fn *ssa.Builtin, arg
 			}
 		}
 		return r
+	case "SliceData":
+		return &sliceDataPtr{s: args[0].(Slice)}
+	case "String": // unsafe.String(ptr, len)
+		sd, ok := args[0].(*sliceDataPtr)
+		if !ok {
+			abortf("unsafe.String of %T", args[0])
+		}
+		n := x.asInt(fr, args[1], "unsafe.String len")
+		r := make([]*Term, n)
+		for i := 0; i < n; i++ {
+			r[i] = sd.s.v[i].(*Term)
+		}
+		return Str{r}
+	case "StringData":
+		return &sliceDataPtr{s: x.sliceOfBytes(args[0].(Str).b, 0)}
+	case "Slice": // unsafe.Slice(ptr, len)
+		sd, ok := args[0].(*sliceDataPtr)
+		if !ok {
+			abortf("unsafe.Slice of %T", args[0])
+		}
+		n := x.asInt(fr, args[1], "unsafe.Slice len")
+		return Slice{v: sd.s.v[:n:n]}
 	case "ssa:wrapnilchk":
 		if isNilPtr(args[0]) {
 			x.runtimePanic(fr, "value method called using nil pointer")
@@ -740,3 +762,5 @@ func appendElemType(site ssa.Instruction) types.Type {
 	abortf("append: cannot determine element type at %T", site)
 	return nil
 }
+
+type sliceDataPtr struct{ s Slice }
